@@ -28,8 +28,10 @@ CASE_TIMEOUT_S = 900
 
 LAYOUTS = {"embedded": ("cli", None), "sibling": ("cli", "core"), "nested": ("pk.cli", "pk.core"), "deep": ("acme.clients.petstore", None),
            # <root>/pkgs is a symlink to <root>/vendor/pkgs (a directory INSIDE the project): writes may go through it, not next to its target
-           "symlinked": ("pkgs.petstore", None)}
-TREES = ["absent", "equal", "different", "partial", "nocore", "namespace"]
+           "symlinked": ("pkgs.petstore", None),
+           # a sibling core whose directory name starts with the client's directory name
+           "sibling-prefix": ("petstore", "petstore_core")}
+TREES = ["absent", "equal", "different", "partial", "nocore", "namespace", "dot-only", "sib-equal", "sib-core-edited"]
 
 # ----------------------------------------------------------------------------------------------
 # audit-hook fault injector (installed once per worker process; inert unless armed)
@@ -117,6 +119,12 @@ def cases(tier, seed):
                     if tier == "quick" and ((force and tree in ("different", "partial")) or (not force and tree == "absent")):
                         continue  # quick: forced runs over absent/equal/nocore trees, non-forced runs over every existing tree
                     if tree == "namespace" and (force or "." not in LAYOUTS[lay][0]):
+                        continue
+                    if tree == "dot-only" and (force or lay not in ("embedded", "nested")):
+                        continue  # the package directory exists but holds only hidden entries (.gitkeep): a non-force run must leave it alone
+                    if tree in ("sib-equal", "sib-core-edited") and (force or LAYOUTS[lay][1] is None):
+                        continue  # external-core layouts with the client __init__ brought in line with what the comparison generates
+                    if lay == "sibling-prefix" and tree not in ("sib-equal", "sib-core-edited", "absent", "equal"):
                         continue  # ancestors without __init__.py exist only for dotted packages; the interesting run is the non-force one
                     if lay in ("deep", "symlinked") and tier == "quick" and tree not in ("equal", "namespace", "absent"):
                         continue
@@ -169,7 +177,13 @@ def prepare(base, case):
     doc = docs.get(case["doc"])
     other = docs.get("unions" if case["doc"] != "unions" else "petstore")
     npp = not case.get("postprocess")
-    if case["tree"] in ("equal", "partial", "nocore", "namespace"):
+    if case["tree"] == "dot-only":
+        od = pkgcheck.pkg_dir(root, out_pkg)
+        os.makedirs(od)
+        for n in (".gitkeep", ".gitattributes"):
+            with open(os.path.join(od, n), "w") as f:
+                f.write("* text=auto\n")
+    if case["tree"] in ("equal", "partial", "nocore", "namespace", "sib-equal", "sib-core-edited"):
         files, err = sandbox.generate(doc, root, output_package=out_pkg, core_package=core_pkg, force=True, no_postprocess=npp)
         if err is not None:
             raise HarnessError(f"could not prepare tree: {err}")
@@ -183,6 +197,13 @@ def prepare(base, case):
         shutil.rmtree(os.path.join(od, "mocks"))
         cd = pkgcheck.pkg_dir(root, core_pkg or out_pkg + ".core")
         os.unlink(os.path.join(cd, "utils.py"))
+    if case["tree"] in ("sib-equal", "sib-core-edited"):
+        # the direct path writes a client __init__.py that the comparison path does not produce (known finding); with that file emptied the
+        # tree is what the comparison generates, so the outcome of the non-force run is decided by the core package alone
+        open(os.path.join(pkgcheck.pkg_dir(root, out_pkg), "__init__.py"), "w").close()
+        if case["tree"] == "sib-core-edited":
+            with open(os.path.join(pkgcheck.pkg_dir(root, core_pkg), "http_transport.py"), "a") as f:
+                f.write("\n# local patch\n")
     if case["tree"] == "namespace":
         # an up-to-date package whose ancestor directories are namespace packages (their __init__.py removed)
         parts = out_pkg.split(".")
@@ -193,7 +214,7 @@ def prepare(base, case):
     if case["tree"] == "nocore":
         # client package present, core directory gone entirely
         shutil.rmtree(pkgcheck.pkg_dir(root, core_pkg or out_pkg + ".core"))
-    if case["tree"] != "absent":
+    if case["tree"] not in ("absent", "dot-only"):
         # a user file inside the package: may only disappear in force mode
         with open(os.path.join(pkgcheck.pkg_dir(root, out_pkg), "user_notes.txt"), "w") as f:
             f.write("mine")
@@ -359,9 +380,9 @@ def check_run(case, label, fault_label, before, after, err, add):
         if faulted and err is None:
             add(f"outcome|{case['tree']}|{case['layout']}", "non-force run reports success although a step failed part-way", fault_label)
         if not faulted:
-            if case["tree"] in ("equal", "namespace") and err is not None:
+            if case["tree"] in ("equal", "namespace", "sib-equal") and err is not None:
                 add(f"outcome|equal|{case['layout']}", "non-force run over an up-to-date tree does not succeed", f"{type(err).__name__}: {str(err)[:120]}")
-            if case["tree"] in ("different", "partial", "nocore") and err is None:
+            if case["tree"] in ("different", "partial", "nocore", "sib-core-edited", "dot-only") and err is None:
                 add(f"outcome|{case['tree']}|{case['layout']}", "non-force run over a tree that differs from what would be generated reports success", "")
 
 
